@@ -594,7 +594,13 @@ def run_no_static_state(prog, rep):
         for r in f.walk():
             if r.k == 'ref' and r.decl.get('kind') == 'staticlocal':
                 statics[r.decl.get('lid')] = r.decl.get('name')
+        # state computed from plain values only (a memo of a pure function of its text / number arguments) cannot go stale with
+        # the file; R-MEMO decides whether such a memo is keyed completely. Only functions that see file-backed entities count here.
+        entity_fn = any(re.search(r'nix::(DataArray|DataFrame|Tag|MultiTag|Dimension|\w+Dimension|Block|Section|Source|Group|Feature|Property|File|DataView)\b', p['type']) for p in f.params) or \
+            bool(f.cls and not f.cls.startswith('nix::util'))
         for lid, name in sorted(statics.items(), key=lambda kv: kv[1]):
+            if not entity_fn and (re.sub(r'<.*', '', f.q), name) not in STATIC_STATE:
+                continue
             n += 1
             key = '%s|%s' % (re.sub(r'<.*', '', f.q), name)
             writes = Sem(prog).mods(f).get(lid) or []
